@@ -978,12 +978,33 @@ func c14R5(c *Ctx, r *Report) {
 			problems = append(problems, fmt.Sprintf("%d suffix lookups and %d root lookups, expected one each", nSuffix, nRoot))
 		}
 		// returns: a handler found in the walk is returned early only on t != DS; the root lookup is not inside the loop
-		for _, blk := range wf.Blocks {
-			ret, ok := blk.Instrs[len(blk.Instrs)-1].(*ssa.Return)
-			if !ok {
-				continue
+		// the ways the function hands back a handler: its return statements, and, where the results of several of them
+		// are merged in front of one return (a result variable), the values merged with the blocks they come from
+		type vret struct {
+			res ssa.Value
+			blk *ssa.BasicBlock
+			ret *ssa.Return
+		}
+		var vrets []vret
+		resultMerge := map[*ssa.Phi]bool{}
+		var expandRet func(v ssa.Value, blk *ssa.BasicBlock, ret *ssa.Return, depth int)
+		expandRet = func(v ssa.Value, blk *ssa.BasicBlock, ret *ssa.Return, depth int) {
+			if phi, isPhi := v.(*ssa.Phi); isPhi && depth < 4 && !backTarget(wf, phi.Block()) {
+				resultMerge[phi] = true
+				for i, e := range phi.Edges {
+					expandRet(e, phi.Block().Preds[i], ret, depth+1)
+				}
+				return
 			}
-			res := unspill(blk, ret)[0]
+			vrets = append(vrets, vret{v, blk, ret})
+		}
+		for _, b := range wf.Blocks {
+			if ret, ok := b.Instrs[len(b.Instrs)-1].(*ssa.Return); ok {
+				expandRet(unspill(b, ret)[0], b, ret, 0)
+			}
+		}
+		for _, vr := range vrets {
+			blk, ret, res := vr.blk, vr.ret, vr.res
 			if _, isPhi := res.(*ssa.Phi); isPhi {
 				// the handler remembered during a DS walk: a registered root pattern is the parent of every zone, so it
 				// must be preferred; the remembered child is returned only when the root lookup missed
@@ -1043,7 +1064,7 @@ func c14R5(c *Ctx, r *Report) {
 		// zone that holds the DS and must be returned, not overwritten by ancestors further up still
 		allInstrs(wf, func(in ssa.Instruction) {
 			phi, ok := in.(*ssa.Phi)
-			if !ok {
+			if !ok || resultMerge[phi] {
 				return
 			}
 			for i, e := range phi.Edges {
